@@ -13,7 +13,8 @@ use serde_json::json;
 #[derive(Clone, Debug)]
 enum Case {
     /// consistent chain: genesis, B(k txs), B(1); optional --start
-    Pass { coin: &'static str, k: usize, start: Option<u64>, auxpow: bool, shape: Option<(usize, usize, usize, usize, bool)> },
+    Pass { coin: &'static str, k: usize, start: Option<u64>, auxpow: bool, shape: Option<(usize, usize, usize, usize, bool)>, wit: usize },
+    // wit: > 0 = the shaped transaction is in segwit form and its first input's witness stack holds one item of this many bytes
     // shape: the block's last transaction has (inputs, outputs, scriptSig bytes, scriptPubKey bytes, segwit form)
     /// consistent 5-block chain indexed at heights base..base+4 only (sparse index), --verify --start base+1;
     /// `flip`: one bit of the prev-hash field of block base+2 flipped (must fail there)
@@ -177,11 +178,11 @@ pub fn run() -> Report {
     // must pass
     let ks: Vec<usize> = (1..=17).chain([31, 32, 33, 64, 65]).collect();
     for &k in &ks {
-        cases.push(Case::Pass { coin: "bitcoin", k, start: None, auxpow: false, shape: None });
+        cases.push(Case::Pass { coin: "bitcoin", k, start: None, auxpow: false, shape: None, wit: 0 });
     }
     if thorough {
         for k in [127usize, 128, 129, 255, 256, 257, 1000] {
-            cases.push(Case::Pass { coin: "bitcoin", k, start: None, auxpow: false, shape: None });
+            cases.push(Case::Pass { coin: "bitcoin", k, start: None, auxpow: false, shape: None, wit: 0 });
         }
     }
     for c in COINS.iter() {
@@ -190,28 +191,33 @@ pub fn run() -> Report {
                 if s == 0 && genesis(c).is_none() {
                     continue;
                 }
-                cases.push(Case::Pass { coin: c.name, k, start: if s == 0 { None } else { Some(s) }, auxpow: false, shape: None });
+                cases.push(Case::Pass { coin: c.name, k, start: if s == 0 { None } else { Some(s) }, auxpow: false, shape: None, wit: 0 });
             }
         }
     }
     for cn in ["namecoin", "dogecoin"] {
         for k in [1usize, 3, 6] {
-            cases.push(Case::Pass { coin: cn, k, start: None, auxpow: true, shape: None });
+            cases.push(Case::Pass { coin: cn, k, start: None, auxpow: true, shape: None, wit: 0 });
         }
     }
     // "for any transaction": counts and lengths of one transaction at and around the CompactSize widths and round numbers
     for segwit in [false, true] {
         for n in [252usize, 253, 1000, 4095, 4096, 4097, 10_000, 65_535, 65_536] {
-            cases.push(Case::Pass { coin: "bitcoin", k: 3, start: None, auxpow: false, shape: Some((n, 1, 1, 25, segwit)) });
-            cases.push(Case::Pass { coin: "bitcoin", k: 3, start: if n % 2 == 0 { Some(1) } else { None }, auxpow: false, shape: Some((1, n, 1, 25, segwit)) });
+            cases.push(Case::Pass { coin: "bitcoin", k: 3, start: None, auxpow: false, shape: Some((n, 1, 1, 25, segwit)), wit: 0 });
+            cases.push(Case::Pass { coin: "bitcoin", k: 3, start: if n % 2 == 0 { Some(1) } else { None }, auxpow: false, shape: Some((1, n, 1, 25, segwit)), wit: 0 });
         }
         for l in [252usize, 253, 4096, 4097, 10_000, 65_535, 65_536, 1_000_000] {
-            cases.push(Case::Pass { coin: "bitcoin", k: 2, start: None, auxpow: false, shape: Some((1, 1, l, 25, segwit)) });
-            cases.push(Case::Pass { coin: "bitcoin", k: 2, start: None, auxpow: false, shape: Some((1, 1, 1, l, segwit)) });
+            cases.push(Case::Pass { coin: "bitcoin", k: 2, start: None, auxpow: false, shape: Some((1, 1, l, 25, segwit)), wit: 0 });
+            cases.push(Case::Pass { coin: "bitcoin", k: 2, start: None, auxpow: false, shape: Some((1, 1, 1, l, segwit)), wit: 0 });
         }
     }
     for cn in ["litecoin", "dogecoin"] {
-        cases.push(Case::Pass { coin: cn, k: 2, start: None, auxpow: false, shape: Some((4097, 4097, 1, 25, false)) });
+        cases.push(Case::Pass { coin: cn, k: 2, start: None, auxpow: false, shape: Some((4097, 4097, 1, 25, false)), wit: 0 });
+    }
+    // witness data is not covered by the txid, but it has to be skipped exactly for everything behind it (lock time, the next
+    // transaction) to be read where it is: stack items at and around the CompactSize widths and beyond 16 bits
+    for l in [252usize, 253, 10_000, 65_535, 65_536, 70_000, 400_000] {
+        cases.push(Case::Pass { coin: "bitcoin", k: 2, start: None, auxpow: false, shape: Some((2, 2, 1, 25, true)), wit: l });
     }
     for base in [127u64, 16_511, 2_113_663, 270_549_119, (1 << 32) - 2, 1 << 40] {
         cases.push(Case::HighPass { base, flip: false });
@@ -322,7 +328,7 @@ pub fn run() -> Report {
             acc.transitions += 1;
             acc.nontrivial.insert(h8(format!("{:?}", c).as_bytes()));
             match c {
-                Case::Pass { coin: cname, k, start, auxpow, shape } => {
+                Case::Pass { coin: cname, k, start, auxpow, shape, wit } => {
                     let cn = coin(cname);
                     let mut cb = ChainBuilder::with_genesis(cn);
                     if *auxpow {
@@ -334,7 +340,7 @@ pub fn run() -> Report {
                         txs.push(TxP::base().build(j as u8));
                     }
                     if let Some((n_in, n_out, sig, spk, segwit)) = shape {
-                        let p = TxP { segwit: *segwit, sig_lens: vec![*sig; *n_in], spk_lens: vec![*spk; *n_out], wit: if *segwit { vec![vec![2, 3]; *n_in] } else { vec![] }, ..TxP::base() };
+                        let p = TxP { segwit: *segwit, sig_lens: vec![*sig; *n_in], spk_lens: vec![*spk; *n_out], wit: if *wit > 0 { let mut w = vec![vec![2, 3]; *n_in]; w[0] = vec![*wit, 1]; w } else if *segwit { vec![vec![2, 3]; *n_in] } else { vec![] }, ..TxP::base() };
                         txs.push(p.build(99));
                         acc.count("must-pass:transaction-shape", 1);
                     }
